@@ -432,5 +432,26 @@ def rule_R5(chk, repo, rid='C07.R5'):
                    f'{"conj(u)" if want_conj else "u"}', okc, '; '.join(v for _, v in b['entries'][:2]),
                    key=f'{rid}|conj|{m}|{b["fam"]}|{n}')
             n += 1
+    # spectator orbitals: every site other than i and i + 1 is visited by each half
+    from ..affine import try_affine, Affine
+    Ls = Affine.sym('L')
+    for m in names:
+        loops = [l for l in halves[m]['stmts'] if isinstance(l, ast.For) and isinstance(l.iter, ast.Call) and
+                 norm(l.iter.func) == 'range']
+        ivs = []
+        for l in loops:
+            a = l.iter.args
+            lo = try_affine(a[0]) if len(a) == 2 else Affine.const(0)
+            hi = try_affine(a[-1], {}, attr_syms={'h.nsites': 'L'}) if True else None
+            if hi is None and norm(a[-1]) in ('h.nsites', f'{fi.params[0]}.nsites'):
+                hi = Ls
+            ivs.append((lo, hi, l))
+        want = {(str(Affine.const(0)), str(Affine.sym('i'))), (str(Affine.sym('i') + Affine.const(2)), str(Ls))}
+        got = {(str(lo), str(hi)) for lo, hi, _ in ivs}
+        bad = [l for lo, hi, l in ivs if (str(lo), str(hi)) not in want]
+        chk.ob(rid, where(repo, fi, bad[0] if bad else (loops[0] if loops else fi.node)), f'gauge transform ({m}): the loops over '
+               f'the spectator orbital k cover exactly the sites [0, i) and [i + 2, L) - every site except the rotated pair', 
+               got == want and not bad, f'ranges {sorted(got)}', key=f'{rid}|spectators|{m}')
+        n += 1
     chk.floor(rid, n, 30)
     return n
